@@ -16,6 +16,7 @@ EXTENDS Naturals, Sequences, FiniteSets, TLC
 CONSTANTS PinAuthFlagTrusted,   \* no security-level check, Reports may be returned as data   (fixed: cdfcb1e)
           PinConfirmedOnlyGet,  \* reportable flag only for Get/GetNext                         (fixed: c3884d2)
           PinReserialise,       \* digest verified over a re-serialisation                      (fixed: 0bd9b8b)
+          PinLazyErrorFirst,    \* the PDU's error-status raises (lazy decode) before the security-level check   (fixed: see F21)
           Attack                \* TRUE: the attacker owns the channel; FALSE: only authentic responses are delivered
 
 Levels == {"noauth", "auth", "authpriv"}
@@ -48,8 +49,12 @@ AgentVerdict(l, req, E, B, T) ==
 \* ------------------------------------------------------------------ incoming
 PduTypes == {"Response", "Report"}
 Vbs == {"good", "evil", "usmStats"}
-Pdus == [type : PduTypes, reqid : {1, 2}, vbs : Vbs]
-GoodPdu == [type |-> "Response", reqid |-> 1, vbs |-> "good"]
+\* error-status of the PDU: the PDU is decoded lazily and its first access raises the exception of the status -
+\* NoSuchOID for noSuchName, which walks take for "end of the subtree" (Caller below)
+ErrStats == {"none", "noSuchName", "other"}
+Pdus == [type : PduTypes, reqid : {1, 2}, vbs : Vbs, es : ErrStats]
+GoodPdu == [type |-> "Response", reqid |-> 1, vbs |-> "good", es |-> "none"]
+ErrCls(es) == IF es = "noSuchName" THEN "NoSuchOID" ELSE "ErrorResponse"
 Payloads == [form : {"plain"}, key : {"-"}, pdu : Pdus] \cup [form : {"enc"}, key : {"Kp", "Kx"}, pdu : Pdus]
 Content == [auth : BOOLEAN, priv : BOOLEAN, user : {"u", "x"}, len127 : BOOLEAN, data : Payloads]
 Macs == [kind : {"empty", "zero", "short", "garbage"}] \cup [kind : {"mac"}, key : {"Ku", "Kx"}, over : Content]
@@ -82,11 +87,33 @@ Process(l, m) ==
   ELSE IF m.c.data.form = "enc" /\ ~HasPriv(l) THEN Exc("SnmpError")                  \* decrypt without priv object
   ELSE IF m.c.data.form = "enc" /\ m.c.data.key # "Kp" THEN Exc("DecryptionError")
   ELSE LET p == m.c.data.pdu IN
-       IF p.vbs = "usmStats" THEN Exc("SnmpError")
-       ELSE IF ~PinAuthFlagTrusted /\ p.type = "Report" THEN Exc("SnmpError")
-       ELSE IF ~PinAuthFlagTrusted /\ HasAuth(l) /\ ~m.c.auth THEN Exc("AuthenticationError")
-       ELSE IF ~PinAuthFlagTrusted /\ HasPriv(l) /\ ~m.c.priv THEN Exc("UnsupportedSecurityLevel")
-       ELSE IF p.reqid # 1 THEN Exc("InvalidResponseId")
-       ELSE [kind |-> "result", type |-> p.type, vbs |-> p.vbs]
+       IF PinLazyErrorFirst
+       THEN \* pinned order: validate_usm_message touches pdu.value first, the level check came last
+            IF p.es # "none" THEN Exc(ErrCls(p.es))
+            ELSE IF p.vbs = "usmStats" THEN Exc("SnmpError")
+            ELSE IF ~PinAuthFlagTrusted /\ p.type = "Report" THEN Exc("SnmpError")
+            ELSE IF ~PinAuthFlagTrusted /\ HasAuth(l) /\ ~m.c.auth THEN Exc("AuthenticationError")
+            ELSE IF ~PinAuthFlagTrusted /\ HasPriv(l) /\ ~m.c.priv THEN Exc("UnsupportedSecurityLevel")
+            ELSE IF p.reqid # 1 THEN Exc("InvalidResponseId")
+            ELSE [kind |-> "result", type |-> p.type, vbs |-> p.vbs]
+       ELSE \* Reports (the only thing accepted below the level of the credentials) always end as SnmpError, whatever they carry;
+            \* everything else passes the level check before the PDU is looked at
+            IF ~PinAuthFlagTrusted /\ p.type = "Report" THEN Exc("SnmpError")
+            ELSE IF ~PinAuthFlagTrusted /\ HasAuth(l) /\ ~m.c.auth THEN Exc("AuthenticationError")
+            ELSE IF ~PinAuthFlagTrusted /\ HasPriv(l) /\ ~m.c.priv THEN Exc("UnsupportedSecurityLevel")
+            ELSE IF p.es # "none" THEN Exc(ErrCls(p.es))
+            ELSE IF p.vbs = "usmStats" THEN Exc("SnmpError")
+            ELSE IF p.reqid # 1 THEN Exc("InvalidResponseId")
+            ELSE [kind |-> "result", type |-> p.type, vbs |-> p.vbs]
 
+\* what the API operation makes of the outcome of one exchange: a walk (Client.multiwalk) takes NoSuchOID for the end of the
+\* subtree and returns normally with the rows it has - a result that is not the authentic one
+Apis == {"single", "walk"}
+Caller(api, out) == IF api = "walk" /\ out.kind = "exc" /\ out.type = "NoSuchOID"
+                    THEN [kind |-> "result", type |-> "Response", vbs |-> "truncated"] ELSE out
+
+\* the messages the attacker can send, enumerated constructively (= { m \in Msgs : CanSend(a, m) })
+AttackerMsgs(a) == { [c |-> c, mac |-> k] : c \in Content, k \in [kind : {"empty", "zero", "short", "garbage"}] } \cup
+                   { [c |-> c, mac |-> [kind |-> "mac", key |-> "Kx", over |-> c]] : c \in Content } \cup
+                   { [c |-> c, mac |-> a.mac] : c \in Content }
 ====
